@@ -2017,6 +2017,7 @@ def to_arrow(
     pyarrow = _import_pyarrow("ak.to_arrow")
 
     layout = to_layout(array, allow_record=False, allow_other=False)
+    toplayout = layout
 
     def recurse(layout, mask, is_option):
         if isinstance(layout, ak.layout.NumpyArray):
@@ -2056,7 +2057,7 @@ def to_arrow(
                     return pyarrow.Array.from_buffers(
                         arrow_type, length, [None, pyarrow.py_buffer(numpy_arr)]
                     )
-            elif allow_tensor:
+            elif allow_tensor and layout is toplayout and mask is None:
                 return pyarrow.Tensor.from_numpy(numpy_arr)
             else:
                 return recurse(
